@@ -1,1 +1,210 @@
-(* placeholder *)
+(* C06  The RIB's change stream reproduces the RIB.  Statements only: each
+   theorem is closed by [exact], pinned by [Check] and followed by
+   [Print Assumptions].
+
+   Vocabulary (Spec/RibSpec.v): [elig_of t net] is the ranked list of eligible
+   paths of a prefix ([] when the prefix is absent), [locrib_view t net] the same
+   read off collect_loc_rib_paths, [id_of t net] the destination id of a live
+   prefix, [step_t t o] / [step_cs t o] the table and the notifications produced
+   by one operation, [consume app t s ops] runs a history and folds every
+   notification into a consumer, [consistent ops] (a Source token always denotes
+   the same remote address) and [bounded t ops] (fewer than 2^24 destinations in
+   the shard whenever an operation starts: the allocator's own debug_assert). *)
+From Coq Require Import List NArith ZArith Bool.
+From RB Require Import Base.Val Model.Rib Spec.RibSpec Proofs.RibC02 Proofs.RibC06.
+Import ListNotations.
+Open Scope N_scope.
+
+(* After any history the destination ids of the live prefixes are pairwise distinct,
+   and the allocator's used set is exactly the set of their local ids (no freed id
+   is live, no live id is free). *)
+Theorem dest_ids_unique :
+  forall shard ops,
+    bounded (empty_table shard) ops ->
+    let t := run (empty_table shard) ops in
+    NoDup (map (fun nd => d_id (snd nd)) (t_dests t))
+    /\ NoDup (t_used t)
+    /\ (forall l, In l (t_used t) <->
+                  l < 16777216 /\ exists net d, In (net, d) (t_dests t) /\ d_id d = dest_id shard l).
+Proof. exact C06_dest_ids_unique. Qed.
+Check dest_ids_unique :
+  forall shard ops,
+    bounded (empty_table shard) ops ->
+    let t := run (empty_table shard) ops in
+    NoDup (map (fun nd => d_id (snd nd)) (t_dests t))
+    /\ NoDup (t_used t)
+    /\ (forall l, In l (t_used t) <->
+                  l < 16777216 /\ exists net d, In (net, d) (t_dests t) /\ d_id d = dest_id shard l).
+Print Assumptions dest_ids_unique.
+
+(* Every notification of every operation (insert, replace, remove, drop, purges,
+   stale / LLGR marking, next-hop flips, end of deferral) carries the prefix's new
+   ranked eligible list ([] when the prefix is gone) and the prefix's destination id. *)
+Theorem change_carries_current_list :
+  forall shard ops o c,
+    consistent (ops ++ [o]) ->
+    let t := run (empty_table shard) ops in
+    In c (step_cs t o) ->
+    c_paths c = elig_of (step_t t o) (c_net c)
+    /\ Some (c_dest_id c) = match id_of (step_t t o) (c_net c) with
+                            | Some i => Some i
+                            | None => id_of t (c_net c)
+                            end.
+Proof. exact C06_change_carries_current_list. Qed.
+Check change_carries_current_list :
+  forall shard ops o c,
+    consistent (ops ++ [o]) ->
+    let t := run (empty_table shard) ops in
+    In c (step_cs t o) ->
+    c_paths c = elig_of (step_t t o) (c_net c)
+    /\ Some (c_dest_id c) = match id_of (step_t t o) (c_net c) with
+                            | Some i => Some i
+                            | None => id_of t (c_net c)
+                            end.
+Print Assumptions change_carries_current_list.
+
+(* The flags are sound for skipping: best_changed = false means the best path's
+   content (source, attribute block, next hop) did not change, any_changed = false
+   means the whole eligible list did not change. *)
+Theorem skip_flags_sound :
+  forall shard ops o c,
+    consistent (ops ++ [o]) ->
+    let t := run (empty_table shard) ops in
+    In c (step_cs t o) ->
+    (c_best_changed c = false ->
+     head_content (elig_of t (c_net c)) = head_content (elig_of (step_t t o) (c_net c)))
+    /\ (c_any_changed c = false -> elig_of t (c_net c) = elig_of (step_t t o) (c_net c)).
+Proof. exact C06_skip_flags_sound. Qed.
+Check skip_flags_sound :
+  forall shard ops o c,
+    consistent (ops ++ [o]) ->
+    let t := run (empty_table shard) ops in
+    In c (step_cs t o) ->
+    (c_best_changed c = false ->
+     head_content (elig_of t (c_net c)) = head_content (elig_of (step_t t o) (c_net c)))
+    /\ (c_any_changed c = false -> elig_of t (c_net c) = elig_of (step_t t o) (c_net c)).
+Print Assumptions skip_flags_sound.
+
+(* A prefix for which an operation emits no notification keeps its eligible list;
+   the only exception is an insert held back by deferral, and then the list is not
+   empty (so end_deferral announces it). *)
+Theorem silent_prefix_unchanged :
+  forall shard ops o net,
+    consistent (ops ++ [o]) ->
+    let t := run (empty_table shard) ops in
+    (forall c, In c (step_cs t o) -> c_net c <> net) ->
+    elig_of t net = elig_of (step_t t o) net
+    \/ (t_deferring t = true /\ t_deferring (step_t t o) = true /\ elig_of (step_t t o) net <> []).
+Proof. exact C06_silent_prefix_unchanged. Qed.
+Check silent_prefix_unchanged :
+  forall shard ops o net,
+    consistent (ops ++ [o]) ->
+    let t := run (empty_table shard) ops in
+    (forall c, In c (step_cs t o) -> c_net c <> net) ->
+    elig_of t net = elig_of (step_t t o) net
+    \/ (t_deferring t = true /\ t_deferring (step_t t o) = true /\ elig_of (step_t t o) net <> []).
+Print Assumptions silent_prefix_unchanged.
+
+(* Folding every notification of any history (deferral periods included, wherever
+   they start) gives exactly collect_loc_rib_paths, whenever the table is not deferring. *)
+Theorem fold_all_changes_eq_locrib :
+  forall shard ops,
+    consistent ops ->
+    let t := run (empty_table shard) ops in
+    t_deferring t = false ->
+    forall net, snd (consume full_apply (empty_table shard) (fun _ => []) ops) net = locrib_view t net.
+Proof. exact C06_fold_all_changes_eq_locrib. Qed.
+Check fold_all_changes_eq_locrib :
+  forall shard ops,
+    consistent ops ->
+    let t := run (empty_table shard) ops in
+    t_deferring t = false ->
+    forall net, snd (consume full_apply (empty_table shard) (fun _ => []) ops) net = locrib_view t net.
+Print Assumptions fold_all_changes_eq_locrib.
+
+(* A consumer that skips notifications flagged best_changed = false still holds
+   the content of every prefix's best path. *)
+Theorem best_only_consumer_correct :
+  forall shard ops,
+    consistent ops ->
+    let t := run (empty_table shard) ops in
+    t_deferring t = false ->
+    forall net, snd (consume best_apply (empty_table shard) (fun _ => None) ops) net
+                = head_content (locrib_view t net).
+Proof. exact C06_best_only_consumer_correct. Qed.
+Check best_only_consumer_correct :
+  forall shard ops,
+    consistent ops ->
+    let t := run (empty_table shard) ops in
+    t_deferring t = false ->
+    forall net, snd (consume best_apply (empty_table shard) (fun _ => None) ops) net
+                = head_content (locrib_view t net).
+Print Assumptions best_only_consumer_correct.
+
+(* An add-path consumer with a window of n paths (None: all) that skips
+   notifications flagged any_changed = false still holds the first n eligible paths. *)
+Theorem addpath_consumer_correct :
+  forall shard ops n,
+    consistent ops ->
+    let t := run (empty_table shard) ops in
+    t_deferring t = false ->
+    forall net, snd (consume (addpath_apply n) (empty_table shard) (fun _ => limit n []) ops) net
+                = limit n (locrib_view t net).
+Proof. exact C06_addpath_consumer_correct. Qed.
+Check addpath_consumer_correct :
+  forall shard ops n,
+    consistent ops ->
+    let t := run (empty_table shard) ops in
+    t_deferring t = false ->
+    forall net, snd (consume (addpath_apply n) (empty_table shard) (fun _ => limit n []) ops) net
+                = limit n (locrib_view t net).
+Print Assumptions addpath_consumer_correct.
+
+(* end_deferral clears the flag and returns collect_loc_rib_paths: one notification
+   per prefix that has an eligible path, no other, each with the full list, the
+   prefix's id and both flags set. *)
+Theorem end_deferral_emits_all :
+  forall shard ops,
+    let t := run (empty_table shard) ops in
+    let t' := step_t t EndDeferral in
+    let cs := step_cs t EndDeferral in
+    t_deferring t' = false
+    /\ cs = loc_rib t' None
+    /\ NoDup (map c_net cs)
+    /\ (forall net, (exists c, In c cs /\ c_net c = net) <-> elig_of t' net <> [])
+    /\ (forall c, In c cs -> c_paths c = elig_of t' (c_net c) /\ id_of t' (c_net c) = Some (c_dest_id c)
+                             /\ c_best_changed c = true /\ c_any_changed c = true).
+Proof. exact C06_end_deferral_emits_all. Qed.
+Check end_deferral_emits_all :
+  forall shard ops,
+    let t := run (empty_table shard) ops in
+    let t' := step_t t EndDeferral in
+    let cs := step_cs t EndDeferral in
+    t_deferring t' = false
+    /\ cs = loc_rib t' None
+    /\ NoDup (map c_net cs)
+    /\ (forall net, (exists c, In c cs /\ c_net c = net) <-> elig_of t' net <> [])
+    /\ (forall c, In c cs -> c_paths c = elig_of t' (c_net c) /\ id_of t' (c_net c) = Some (c_dest_id c)
+                             /\ c_best_changed c = true /\ c_any_changed c = true).
+Print Assumptions end_deferral_emits_all.
+
+(* While deferring, an insert reports nothing, except the withdrawal of a prefix
+   whose last eligible path it takes away (repaired behaviour, repo commit bab1d07). *)
+Theorem deferred_insert_reports_only_withdrawal :
+  forall shard ops s net rpid nh a filt nhinv lim,
+    let t := run (empty_table shard) ops in
+    t_deferring t = true ->
+    step_cs t (Insert s net rpid nh a filt nhinv lim) = []
+    \/ exists c, step_cs t (Insert s net rpid nh a filt nhinv lim) = [c]
+                 /\ c_net c = net /\ c_paths c = [] /\ elig_of t net <> []
+                 /\ elig_of (step_t t (Insert s net rpid nh a filt nhinv lim)) net = [].
+Proof. exact C06_deferred_insert_reports_only_withdrawal. Qed.
+Check deferred_insert_reports_only_withdrawal :
+  forall shard ops s net rpid nh a filt nhinv lim,
+    let t := run (empty_table shard) ops in
+    t_deferring t = true ->
+    step_cs t (Insert s net rpid nh a filt nhinv lim) = []
+    \/ exists c, step_cs t (Insert s net rpid nh a filt nhinv lim) = [c]
+                 /\ c_net c = net /\ c_paths c = [] /\ elig_of t net <> []
+                 /\ elig_of (step_t t (Insert s net rpid nh a filt nhinv lim)) net = [].
+Print Assumptions deferred_insert_reports_only_withdrawal.
